@@ -301,38 +301,46 @@ Definition set_vars (st : state) (vs : list (name * value)) : state :=
   {| s_impls := s_impls st; s_funcs := s_funcs st; s_statics := s_statics st; s_vars := vs; s_ctx := s_ctx st; s_out := s_out st |}.
 Definition emit (st : state) (l : line) : state := set_out st (s_out st ++ [l]).
 
+(* the receiver of  recv.m(..) : where it lives, what it holds now, its dynamic type, the copy that
+   becomes self, the impl context to enter *)
+Definition receiver (vs : list (name * value)) (r : recv) : option (loc * value * name * payload * option (name * name)) :=
+  match resolve vs r with
+  | None => None
+  | Some l =>
+      match read vs l with
+      | None => None
+      | Some v => match obj_of v with Some (t, self, enter) => Some (l, v, t, self, enter) | None => None end
+      end
+  end.
+
+(* run the body `meth` with self := the copy, then write self back into the receiver *)
+Definition invoke (st : state) (l : loc) (v : value) (self : payload) (enter : option (name * name))
+                  (meth : method) (arg : Z) : res (state * Z) :=
+  let ctx := match enter with Some c => Some c | None => s_ctx st end in          (* enter_impl_context *)
+  let fr := {| f_self := self; f_arg := arg; f_statics := s_statics st; f_ctx := ctx; f_out := s_out st |} in
+  match exec_body fr (m_body meth) with
+  | inr (o, x) => Fail o x
+  | inl fr' =>
+      match eval_ret fr' (m_ret meth) with
+      | inr x => Fail (f_out fr') x
+      | inl z =>
+          Ok ({| s_impls := s_impls st; s_funcs := s_funcs st;
+                 s_statics := f_statics fr';
+                 s_vars := write (s_vars st) l (with_payload v (f_self fr'));      (* SELF_WRITEBACK *)
+                 s_ctx := match enter with Some _ => None | None => s_ctx st end;  (* exit_impl_context: the slot is cleared *)
+                 s_out := f_out fr' |}, z)
+      end
+  end.
+
 (* one method call  recv.m(arg)  : state after the call and the returned int *)
 Definition call (st : state) (r : recv) (m : name) (arg : Z) : res (state * Z) :=
-  match resolve (s_vars st) r with
+  match receiver (s_vars st) r with
   | None => Fail (s_out st) EBad
-  | Some l =>
-    match read (s_vars st) l with
-    | None => Fail (s_out st) EBad
-    | Some v =>
-      match obj_of v with
-      | None => Fail (s_out st) EBad
-      | Some (t, self, enter) =>
-        match alookup (method_key t m) (s_funcs st) with            (* global_scope.functions.find(type_name::name) *)
-        | None => Fail (s_out st) (EUndefFunc m)
-        | Some meth =>
-          let ctx := match enter with Some c => Some c | None => s_ctx st end in   (* enter_impl_context *)
-          let fr := {| f_self := self; f_arg := arg; f_statics := s_statics st; f_ctx := ctx; f_out := s_out st |} in
-          match exec_body fr (m_body meth) with
-          | inr (o, x) => Fail o x
-          | inl fr' =>
-            match eval_ret fr' (m_ret meth) with
-            | inr x => Fail (f_out fr') x
-            | inl z =>
-              Ok ({| s_impls := s_impls st; s_funcs := s_funcs st;
-                     s_statics := f_statics fr';
-                     s_vars := write (s_vars st) l (with_payload v (f_self fr'));   (* SELF_WRITEBACK *)
-                     s_ctx := match enter with Some _ => None | None => s_ctx st end; (* exit_impl_context: slot cleared *)
-                     s_out := f_out fr' |}, z)
-            end
-          end
-        end
+  | Some (l, v, t, self, enter) =>
+      match alookup (method_key t m) (s_funcs st) with            (* global_scope.functions.find(type_name + "::" + name) *)
+      | None => Fail (s_out st) (EUndefFunc m)
+      | Some meth => invoke st l v self enter meth arg
       end
-    end
   end.
 
 (* assign_interface_view: dest (declared `i dest`) := a view of the variable src *)
